@@ -21,7 +21,8 @@ EXPLANATION = (
     'call outside the core takes a request obtained from the validating lookup in the same function and '
     'null-checked; (GRD.3) the dispatch passes only a freshly looked-up request or a deliberate NULL, and '
     'handlers that may receive NULL test it before any dereference; (UAR.1) no request is used after a call '
-    'that may retire it.  Decides the mechanism on all paths; container semantics are C19.')
+    'that may retire it.  Decides the mechanism on all paths; container semantics are C19.'
+    ' Rounds 8-9: (WMC.4) what modules install in the registered / disconnect slots cannot reach the sender; (TMR.1) an event that carries a request is owned by it.')
 ASSUMPTIONS = ['clang 14 CFG; module callbacks resolved through function-pointer slots',
                'the request table is the file-static iauth_reqs; set_remove(table, x, 0) disposes x',
                'one UAR exception with machine-checked premises (DESIGN.md 4.1)']
